@@ -17,6 +17,11 @@ pub struct Case {
   pub pkgs: Vec<RawPackage>,
   /// analyse as workspace member instead of registry package
   pub workspace: bool,
+  /// the entry module of the first package also imports a module that does
+  /// not exist, for use inside a function body only (set by C15 alone: the
+  /// graph then has an error entry behind an edge fast check prunes)
+  #[serde(default)]
+  pub impl_import_missing: bool,
 }
 
 pub fn case_strategy(tier: Tier) -> BoxedStrategy<Case> {
@@ -24,7 +29,7 @@ pub fn case_strategy(tier: Tier) -> BoxedStrategy<Case> {
     proptest::collection::vec(tsgen::raw_package(tier.pick(10, 16)), 1..=2),
     proptest::bool::weighted(0.25),
   )
-    .prop_map(|(pkgs, workspace)| Case { pkgs, workspace })
+    .prop_map(|(pkgs, workspace)| Case { pkgs, workspace, impl_import_missing: false })
     .boxed()
 }
 
@@ -53,7 +58,12 @@ pub struct Prepared {
 }
 
 pub fn prepare(case: &Case, cache: Option<&dyn deno_graph::fast_check::FastCheckCache>) -> Prepared {
-  let pkgs: Vec<Package> = case.pkgs.iter().map(tsgen::build).collect();
+  let mut pkgs: Vec<Package> = case.pkgs.iter().map(tsgen::build).collect();
+  if case.impl_import_missing {
+    if let Some(t) = pkgs[0].files.get_mut("/mod.ts") {
+      t.push_str("import { gone } from \"./gone.ts\";\nfunction usesGone(): void { void gone; }\nvoid usesGone;\n");
+    }
+  }
   if case.workspace {
     let (mut graph, members) = fc::build_workspace_graph(&pkgs[0]);
     fc::run_fast_check(&mut graph, cache, Some(&members));
